@@ -205,9 +205,28 @@ Definition dec_kres (j : J) : option (Z * list float) :=
   match j with JL [JI k; vs] => match jfs vs with Some l => Some (k, l) | None => None end
   | _ => None end.
 
-Definition range_prop (vals : list float) (qs es : list float) : bool :=
+(* "small rank error", sampled for the pipeline entry points (statistical claim, not proved): for
+   n >= 20 finite values, compression 0 < c <= n and 0 < q < 1, the distance from q to the rank
+   interval [#(v < e), #(v <= e)] / n of the estimate e is at most 0.5 * max(c, 8) / n (a centroid
+   holds at most c/8 values; the unchanged code stays below 0.24 * max(c, 8) / n on all generated
+   cases). A digest that reaches `quantile` with unsorted centroids (finish not compressing a
+   never-merged accumulator) breaks this by a wide margin. *)
+Definition rank_ok (c : float) (fin : list float) (q e : float) : bool :=
+  let n := List.length fin in
+  if (n <? 20)%nat || negb (flt 0%float c) || negb (fle c (fofnat n))
+     || negb (flt 0%float q && flt q 1%float) || fnan e then true
+  else
+    let nf := fofnat n in
+    let lo := PrimFloat.div (fofnat (List.length (filter (fun v => flt v e) fin))) nf in
+    let hi := PrimFloat.div (fofnat (List.length (filter (fun v => fle v e) fin))) nf in
+    let dist := if flt q lo then PrimFloat.sub lo q
+                else if flt hi q then PrimFloat.sub q hi else 0%float in
+    fle dist (PrimFloat.div (PrimFloat.mul 0.5%float (if flt c 8%float then 8%float else c)) nf).
+
+Definition range_prop (c : float) (vals : list float) (qs es : list float) : bool :=
   let adds := finite_adds (map (fun v => (v, 1%float)) vals) in
-  ests_ok (negb (Nat.eqb (List.length adds) 0)) (ref_lo adds) (ref_hi adds) qs es.
+  ests_ok (negb (Nat.eqb (List.length adds) 0)) (ref_lo adds) (ref_hi adds) qs es
+  && all2 (rank_ok c (map fst adds)) qs es.
 
 Definition check_pipe (input output : J) : verdict :=
   match input, output with
@@ -222,7 +241,7 @@ Definition check_pipe (input output : J) : verdict :=
             match jfs jdata, jfs jres with
             | Some vals, Some res =>
                 let acc := global_acc (String.eqb variant "globl") c vals parts fan in
-                ok_verdict (fsames (aq_finish farith qs acc) res) (range_prop vals qs res)
+                ok_verdict (fsames (aq_finish farith qs acc) res) (range_prop c vals qs res)
             | _, _ => malformed
             end
           else if String.eqb variant "med" then
@@ -230,7 +249,7 @@ Definition check_pipe (input output : J) : verdict :=
             | Some vals, Some res =>
                 let acc := global_acc false c vals parts fan in
                 ok_verdict (fsames [am_finish farith acc] res)
-                           (range_prop vals [0.5%float] res)
+                           (range_prop c vals [0.5%float] res)
             | _, _ => malformed
             end
           else if String.eqb variant "vals" || String.eqb variant "gbkl" then
@@ -244,7 +263,7 @@ Definition check_pipe (input output : J) : verdict :=
                                         && fsames (aq_finish farith qs (values_acc c kvs parts k))
                                                   (snd r)) keys res)
                       (all2 (fun k r => (k =? fst r)
-                                        && range_prop (map snd (filter (fun kv => fst kv =? k) kvs))
+                                        && range_prop c (map snd (filter (fun kv => fst kv =? k) kvs))
                                                       qs (snd r)) keys res)
                 | _, _ => malformed
                 end
@@ -681,6 +700,7 @@ Definition check_qh (input output : J) : verdict :=
           match q_comb comb c qs0 with
           | None => malformed
           | Some (cb, qs) =>
+              let ceff := if String.eqb comb "meddef" then am_default_compression farith else c in
               let parts := Z.to_nat parts in
               let fan := Z.to_nat fan in
               let fden := fofZ den in
@@ -706,16 +726,33 @@ Definition check_qh (input output : J) : verdict :=
                            && match combine_values_lifted cb Z.eqb key parts groups with
                               | Some o => fsames o (snd r) | None => false end) gkeys cvl in
               let per_key_prop (ks : list Z) (res : list (Z * list float)) :=
-                all2 (fun key r => (key =? fst r) && range_prop (zmine key rows) qs (snd r))
+                all2 (fun key r => (key =? fst r) && range_prop ceff (zmine key rows) qs (snd r))
                      ks res in
               let prop :=
-                range_prop vals qs cg && range_prop vals qs cgl
+                range_prop ceff vals qs cg && range_prop ceff vals qs cgl
                 && per_key_prop keys cv && per_key_prop keys gbkl && per_key_prop gkeys cvl
                 && per_key_prop keys cv2 in
               ok_verdict agree prop
           end
       | _, _, _, _, _, _, _, _ => malformed
       end
+  | _, _ => malformed
+  end.
+
+(* ------------------------------------------------------------------ "kx": exact far below a
+   huge sketch size. in = [k, start, step, count, parts]: the ids start + step*j (step > 0) are
+   `count` distinct values; both helpers must return exactly `count` when count < max k 4.
+   Property only: no model run (hashing and sorting 3*10^5 ranks per case is not affordable in
+   the quick tier); the agreement column is vacuous for this kind. *)
+Definition check_kx (input output : J) : verdict :=
+  match input, output with
+  | JL [JI k; JI start; JI step; JI count; JI _], JL [JS okt; JL [JF adc; JF adck]] =>
+      if negb (String.eqb okt "ok") then ok_verdict false false else
+      if negb ((0 <=? start) && (0 <? step) && (0 <=? count)) then malformed else
+      let prop :=
+        if count <? Z.max k 4 then feq adc (fofZ count) && feq adck (fofZ count)
+        else negb (fnan adc) && negb (fnan adck) in
+      ok_verdict true prop
   | _, _ => malformed
   end.
 
@@ -733,6 +770,7 @@ Definition check_C15 (kind : string) (input output : J) : verdict :=
   else if String.eqb kind "kmvp" then check_kmvp input output
   else if String.eqb kind "kmvs" then check_kmvs input output
   else if String.eqb kind "kmvk" then check_kmvk input output
+  else if String.eqb kind "kx" then check_kx input output
   else if String.eqb kind "kh" then check_kh input output
   else if String.eqb kind "qh" then check_qh input output
   else malformed.
